@@ -43,9 +43,7 @@ def run(tier, seed):
         cfg = os.path.join(wd, "design_%s.cfg" % name)
         _design_cfg(cfg, lids, names, vals, cons, kinds, maxlen)
         r = vc.model_check(SPEC, "ParamList", cfg, coverage=True, timeout=12000, heap="10g")
-        ck.add_model("ParamList/" + name, r, "LIds=%s NameIds=%s DVals=%s DCons=%s DKinds=%s MaxLen=%d" % (lids, names, vals, cons, kinds, maxlen))
-        if r.invariant:
-            ck.violation("design model ParamList/%s violates %s" % (name, r.invariant), [r.out[-6000:]], tag="model")
+        pc.add_design(ck, "ParamList/" + name, r, "LIds=%s NameIds=%s DVals=%s DCons=%s DKinds=%s MaxLen=%d" % (lids, names, vals, cons, kinds, maxlen))
     # 2. implementation traces
     exe = vc.build_driver("drv_params")
     runs = [("list", ["--mode", "list", "--n", 250 if quick else 5000]),
